@@ -14,21 +14,21 @@ PIPE_PROPS = ("C01", "C02", "C05", "C06", "C07", "C08", "C09", "C11", "C13", "C1
 # compilation is a pure function of the text: the properties that quantify over several texts / compilations in one process
 PIPE_PROPS = ("C01", "C02", "C05", "C06", "C07", "C08", "C09", "C11", "C13", "C14", "C17")
 CLAUSES = {
-    "compile": (("C07",), "a grammatical program compiles to an evaluator"),
+    "compile": (("C07", "C15"), "a grammatical program compiles to an evaluator"),
     "internal-error": (("C07",), "evaluation ends with a group or the unroutable error, never an internal SyntaxError/NameError/..."),
-    "routing": (("C02",), "the returned group belongs to exactly the return statement selected by if / else-if / else"),
+    "routing": (("C02", "C05", "C07", "C09", "C13"), "the returned group belongs to exactly the return statement selected by if / else-if / else"),
     "error-class": (("C02", "C16", "C03", "C14"), "the outcome class (group / unroutable error) is the reference one"),
     "literal": (("C05",), "returned labels have the literal's exact value AND type"),
-    "ast": (("C02", "C05"), "parse_source builds the AST the reference parser builds (values and types)"),
-    "bucket": (("C12", "C03", "C10", "C15", "C09"), "the group inside the selected return statement is the one the published scheme gives"),
+    "ast": (("C02", "C05", "C03", "C10", "C12", "C13"), "parse_source builds the AST the reference parser builds (values and types)"),
+    "bucket": (("C12", "C03", "C10", "C15", "C09", "C01", "C16"), "the group inside the selected return statement is the one the published scheme gives"),
     "irrelevance": (("C09", "C15"), "extra keyword arguments and argument order do not change the outcome"),
     "module": (("C14",), "generate_code text (both layouts) behaves like the evaluator"),
     "inert": (("C13",), "nothing but the evaluation skeleton runs (sentinel builtin never invoked)"),
-    "rebuild": (("C01", "C07", "C11", "C02", "C08"), "a second evaluator built from the same text (after other compilations in the same process) behaves identically"),
+    "rebuild": (("C01", "C07", "C11", "C02", "C08", "C10", "C14"), "a second evaluator built from the same text (after other compilations in the same process) behaves identically"),
     "total": (("C15",), "any str/int/float/bool/None splitter value yields a group"),
 }
 MUT_CLAUSES = {
-    "accepts-invalid": (("C06",), "a text the reference recogniser rejects does not compile"),
+    "accepts-invalid": (("C06", "C11"), "a text the reference recogniser rejects does not compile"),
     "compile": (("C07",), "a token-level mutant that is still grammatical compiles"),
 }
 
@@ -75,7 +75,7 @@ def link_pipeline(ctx):
         f3 = [f for r in r3s for f in r["failures"]]
         out.append(_bounded("bounded:pipeline/codegen==D(ast)", "pyab_experiment.codegen.python.python_generator:PythonCodeGen.generate",
                             "translation validation: the Python AST of the real generator's output (both layouts) equals D(spec AST) on generated programs",
-                            ("C02", "C03", "C05", "C07", "C09", "C10", "C12", "C13", "C14", "C01"), f3, {"evaluations": sum(r["evaluations"] for r in r3s), "bound": "%d x (%s)" % (chunks, r3s[0]["bound"])}))
+                            ("C02", "C03", "C05", "C07", "C09", "C10", "C12", "C13", "C14", "C01", "C15"), f3, {"evaluations": sum(r["evaluations"] for r in r3s), "bound": "%d x (%s)" % (chunks, r3s[0]["bound"])}))
     except Exception as e:   # noqa
         out.append(Obl("bounded:pipeline/codegen-run", "pipeline", "bounded", "translation validation runs", status=ERROR, backend="native-bounded", bounded=True, detail=repr(e)[-800:], props=("C02", "C14")))
     try:
@@ -270,7 +270,7 @@ def link_sly_confinement(ctx):
         out.append(Obl("frame:%s.no-module-level-mutable-state" % mod.split("/")[-1], mod.replace("/", ".")[:-3], "frame",
                        "the module keeps no mutable object at module level (nothing is shared between evaluators, calls or threads)",
                        status=DISCHARGED if not bad else REFUTED, backend="effect-scan", detail="; ".join(bad),
-                       props=PIPE_PROPS + (("C03", "C10", "C12", "C15", "C16") if mod.endswith("binning.py") else ()), model={"objects": bad} if bad else None,
+                       props=PIPE_PROPS + ("C03", "C10", "C12", "C15", "C16"), model={"objects": bad} if bad else None,      # every property quantifies over several calls
                        replay=lambda ob: _thread_replay()))
     # nothing on the compile+evaluate path changes a PROCESS-GLOBAL interpreter setting (a save/restore pair is not atomic:
     # another thread can restore a stale value or run under the temporary one)
